@@ -165,6 +165,13 @@ pub fn gen(seed: u64, n: usize, out: &mut Out) {
                        let mut g = build_graph::<$t, u32>(&a, &mut r);
                        // a reachable state: swap-removals renumber nodes and edges
                        for _ in 0..r.below(3) { if g.node_count() > 1 && r.chance(60) { let k = r.below(g.node_count()); g.remove_node(petgraph::graph::NodeIndex::new(k)); } if g.edge_count() > 0 && r.chance(50) { let k = r.below(g.edge_count()); g.remove_edge(petgraph::graph::EdgeIndex::new(k)); } }
+                       if r.chance(12) {
+                           // clear_edges, then new edges on the old indices: stale list heads would come alive
+                           let pairs: Vec<(usize, usize, i64)> = g.edge_references().map(|e| (e.target().index(), e.source().index(), *e.weight())).collect();
+                           g.clear_edges();
+                           for (s, t, w) in pairs.iter().rev().take(1 + r.below(4)) { if *s < g.node_count() && *t < g.node_count() { g.add_edge(petgraph::graph::NodeIndex::new(*s), petgraph::graph::NodeIndex::new(*t), *w); } }
+                           out.stat("graph_clear_edges_history");
+                       }
                        let (h, l) = dumpfv!(&g, |e: petgraph::graph::EdgeIndex<u32>| e.index(), incoming: yes, adj: yes, ncount: yes, ecount: yes, ebound: yes, compact: yes, ids: yes);
                        emit_base(out, id, 0, &h, &l);
                        adaptors_full!(&g, |e: petgraph::graph::EdgeIndex<u32>| e.index(), &mut r, out, compact: yes);
